@@ -1,16 +1,16 @@
-/// ENVIRONMENT STUB for `std::vec::Vec` inside this scratch module only (shadows the prelude's Vec): a fixed-capacity
+/// ENVIRONMENT STUB for `std::vec::Vec` inside the body of `pass2` only (`type Vec<T> = VecShim<T>;` as that function's first line): a fixed-capacity
 /// array with a length. The pass-2 block uses exactly `Vec::with_capacity`, `push`, `len` and `for x in &v`; their
 /// contract (push appends at position len, iteration yields positions 0..len in order) is what this implements.
 /// Reason: the real Vec's heap buffer written at a symbolic position (a `continue` guards the push) sent CBMC's array
 /// post-processing past 12 GB; an array of structs in a local is bit-blasted directly.
 pub const VEC_SHIM_CAP: usize = 6;
-pub struct Vec<T> {
+pub struct VecShim<T> {
     items: [Option<T>; VEC_SHIM_CAP],
     len: usize,
 }
-impl<T> Vec<T> {
+impl<T> VecShim<T> {
     pub fn with_capacity(_n: usize) -> Self {
-        Vec { items: [None, None, None, None, None, None], len: 0 }
+        VecShim { items: [None, None, None, None, None, None], len: 0 }
     }
     pub fn new() -> Self {
         Self::with_capacity(0)
@@ -31,7 +31,7 @@ impl<T> Vec<T> {
     }
 }
 pub struct VecShimIter<'a, T> {
-    v: &'a Vec<T>,
+    v: &'a VecShim<T>,
     i: usize,
 }
 impl<'a, T> Iterator for VecShimIter<'a, T> {
@@ -44,7 +44,7 @@ impl<'a, T> Iterator for VecShimIter<'a, T> {
         r
     }
 }
-impl<'a, T> IntoIterator for &'a Vec<T> {
+impl<'a, T> IntoIterator for &'a VecShim<T> {
     type Item = &'a T;
     type IntoIter = VecShimIter<'a, T>;
     fn into_iter(self) -> VecShimIter<'a, T> {
